@@ -155,7 +155,6 @@ func DialTimeout(network, addr string, timeout time.Duration) (net.Conn, error) 
 	return net.DialTimeout(network, addr, timeout)
 }
 
-
 // DialContext is a dialer for libraries that take one (gRPC): under a
 // simulator the connection comes from the simulated network.
 func DialContext(ctx context.Context, addr string) (c net.Conn, err error) {
@@ -166,4 +165,41 @@ func DialContext(ctx context.Context, addr string) (c net.Conn, err error) {
 	var d net.Dialer
 
 	return d.DialContext(ctx, "tcp", addr)
+}
+
+// MsgUDPConn is what internal/bindtodevice uses of *net.UDPConn.
+type MsgUDPConn interface {
+	net.PacketConn
+	ReadMsgUDP(b, oob []byte) (n, oobn, flags int, addr *net.UDPAddr, err error)
+	WriteMsgUDP(b, oob []byte, addr *net.UDPAddr) (n, oobn int, err error)
+}
+
+// NetHooks lets a simulator serve the sockets that code opens with a
+// *net.ListenConfig of its own.
+type NetHooks struct {
+	Listen       func(ctx context.Context, network, addr string) (net.Listener, error)
+	ListenPacket func(ctx context.Context, network, addr string) (net.PacketConn, error)
+}
+
+var netHooks atomic.Pointer[NetHooks]
+
+// InstallNet installs h; nil uninstalls.
+func InstallNet(h *NetHooks) { netHooks.Store(h) }
+
+// Listen replaces lc.Listen.
+func Listen(lc *net.ListenConfig, ctx context.Context, network, addr string) (net.Listener, error) {
+	if h := netHooks.Load(); h != nil && h.Listen != nil {
+		return h.Listen(ctx, network, addr)
+	}
+
+	return lc.Listen(ctx, network, addr)
+}
+
+// ListenPacket replaces lc.ListenPacket.
+func ListenPacket(lc *net.ListenConfig, ctx context.Context, network, addr string) (net.PacketConn, error) {
+	if h := netHooks.Load(); h != nil && h.ListenPacket != nil {
+		return h.ListenPacket(ctx, network, addr)
+	}
+
+	return lc.ListenPacket(ctx, network, addr)
 }
